@@ -39,3 +39,41 @@ fn removing_an_executor_from_inside_a_callback() {
     el.dispatch(Duration::from_millis(50), &mut ()).unwrap();
     el.dispatch(Duration::from_millis(20), &mut ()).unwrap();
 }
+
+/// round 9 (seed C16-6): the removed source is dropped with NOTHING of the loop borrowed -- an Async adapter it owns (in its
+/// callback, or in a future of an executor) takes its fd out of the poller in its Drop, which needs the poller
+#[test]
+fn an_adapter_owned_by_a_removed_source_releases_its_fd() {
+    use calloop::ping::make_ping;
+    let (a, _b) = UnixStream::pair().unwrap();
+    let mut el: EventLoop<()> = EventLoop::try_new().unwrap();
+    let h = el.handle();
+    let adapter = h.adapt_io(&a).unwrap();
+    let (_p, ps) = make_ping().unwrap();
+    let tok = h.insert_source(ps, move |_, _, _| { let _keep = &adapter; }).unwrap();
+    h.remove(tok);
+    let again = h.adapt_io(&a).expect("the fd of an adapter dropped with its removed owner is still in the poller");
+    drop(again);
+    el.dispatch(Duration::from_millis(10), &mut ()).unwrap();
+}
+
+#[test]
+fn an_adapter_owned_by_a_future_of_a_removed_executor_releases_its_fd() {
+    use std::os::unix::io::{AsFd, AsRawFd, BorrowedFd};
+    struct Shared(std::rc::Rc<UnixStream>);
+    impl AsFd for Shared { fn as_fd(&self) -> BorrowedFd<'_> { self.0.as_fd() } }
+    let (a, _b) = UnixStream::pair().unwrap();
+    let a = std::rc::Rc::new(a);
+    let mut el: EventLoop<()> = EventLoop::try_new().unwrap();
+    let h = el.handle();
+    let (exec, sched) = executor::<()>().unwrap();
+    let tok = h.insert_source(exec, |_, _, _| {}).unwrap();
+    let mut io = h.adapt_io(Shared(a.clone())).unwrap();
+    sched.schedule(async move { io.readable().await; }).unwrap();
+    el.dispatch(Duration::from_millis(20), &mut ()).unwrap();
+    h.remove(tok);
+    assert!(a.as_raw_fd() >= 0);
+    let again = h.adapt_io(Shared(a.clone())).expect("the fd of an adapter dropped with the future of a removed executor is still in the poller");
+    drop(again);
+    el.dispatch(Duration::from_millis(10), &mut ()).unwrap();
+}
